@@ -69,6 +69,18 @@ pub enum Atom {
     C(u8),
     /// bit i of decompose_to_bits
     B(u8),
+    /// output of the i-th explicit recomposition statement
+    X(u8),
+}
+
+/// Coefficients packed by an explicit recomposition statement: four base-field public inputs
+/// (set Q or a second set Q2 holding the same values) or the hinted coefficients of the earlier
+/// `Coeffs` statement.
+#[derive(Clone, Copy, Debug, PartialEq, Eq, Hash, PartialOrd, Ord, Serialize, Deserialize)]
+pub enum CoeffSrc {
+    Q,
+    Q2,
+    C,
 }
 
 #[derive(Clone, Copy, Debug, PartialEq, Eq, Hash, PartialOrd, Ord, Serialize, Deserialize)]
@@ -87,6 +99,8 @@ pub enum Stmt {
     Alu { kind: Kind, args: Vec<Atom> },
     Coeffs { target: Atom, ctl: bool },
     Bits,
+    /// recompose_base_coeffs_to_ext (plain table) / .._with_coeff_lookups (recompose/coeff table)
+    Recomp { src: CoeffSrc, ctl: bool },
 }
 
 #[derive(Clone, Debug, PartialEq, Eq, Hash, Serialize, Deserialize)]
@@ -106,8 +120,9 @@ impl Shape {
             Atom::R(i) => format!("r{i}"),
             Atom::C(i) => format!("c{i}"),
             Atom::B(i) => format!("b{i}"),
+            Atom::X(i) => format!("x{i}"),
         };
-        let (mut np, mut na) = (0, 0);
+        let (mut np, mut na, mut nx) = (0, 0, 0);
         let mut s = vec![];
         for st in &self.stmts {
             match st {
@@ -126,6 +141,10 @@ impl Shape {
                 }
                 Stmt::Coeffs { target, ctl } => s.push(format!("c=coeffs{}({})", if *ctl { "_ctl" } else { "" }, a(target))),
                 Stmt::Bits => s.push("b=bits(pb,3)".into()),
+                Stmt::Recomp { src, ctl } => {
+                    s.push(format!("x{nx}=recompose{}({})", if *ctl { "_ctl" } else { "" }, match src { CoeffSrc::Q => "q0..q3", CoeffSrc::Q2 => "q4..q7", CoeffSrc::C => "c0..c3" }));
+                    nx += 1;
+                }
             }
         }
         for (x, y) in &self.connects {
@@ -139,7 +158,7 @@ impl Shape {
             Stmt::PermChained { in0 } => in0.as_ref().is_some_and(&f),
             Stmt::Alu { args, .. } => args.iter().any(&f),
             Stmt::Coeffs { target, .. } => f(target),
-            Stmt::Bits => false,
+            Stmt::Bits | Stmt::Recomp { .. } => false,
         }) || self.connects.iter().any(|(x, y)| f(x) || f(y))
     }
     pub fn uses_hint(&self) -> bool {
@@ -167,6 +186,14 @@ pub struct Family {
     pub coeffs: bool,
     pub bits: bool,
     pub max_conn: u8,
+    /// explicit recomposition statements (plain / coeff-ctl flavour); `Coeffs` + `Recomp`
+    /// statements together never exceed `max_coeff_stmts`
+    pub max_recomp: u8,
+    pub max_coeff_stmts: u8,
+    /// second public coefficient set Q2 available
+    pub q2: bool,
+    pub min_perm: u8,
+    pub min_recomp: u8,
 }
 
 pub fn families(quick: bool) -> Vec<Family> {
@@ -175,25 +202,29 @@ pub fn families(quick: bool) -> Vec<Family> {
     let bin = vec![Add, Sub, Mul, Div];
     if quick {
         vec![
-            Family { name: "npo-1perm-1alu-1conn", max_perm: 1, chained: false, min_alu: 1, max_alu: 1, kinds: all.clone(), wide_operands: true, fed_inputs: true, coeffs: false, bits: false, max_conn: 1 },
-            Family { name: "npo-1perm-2alu-submuldiv-1conn", max_perm: 1, chained: false, min_alu: 2, max_alu: 2, kinds: vec![Sub, Mul, Div], wide_operands: false, fed_inputs: false, coeffs: false, bits: false, max_conn: 1 },
-            Family { name: "npo-2perm-1alu-submul-1conn", max_perm: 2, chained: true, min_alu: 1, max_alu: 1, kinds: vec![Sub, Mul], wide_operands: false, fed_inputs: false, coeffs: false, bits: false, max_conn: 1 },
-            Family { name: "npo-1perm-coeffs-1alu-submul-1conn", max_perm: 1, chained: false, min_alu: 1, max_alu: 1, kinds: vec![Sub, Mul], wide_operands: false, fed_inputs: false, coeffs: true, bits: false, max_conn: 1 },
-            Family { name: "npo-1perm-bits-1alu-0conn", max_perm: 1, chained: false, min_alu: 1, max_alu: 1, kinds: vec![Sub, Mul], wide_operands: false, fed_inputs: false, coeffs: false, bits: true, max_conn: 0 },
+            Family { name: "npo-1perm-1alu-1conn", max_perm: 1, chained: false, min_alu: 1, max_alu: 1, kinds: all.clone(), wide_operands: true, fed_inputs: true, coeffs: false, bits: false, max_conn: 1, max_recomp: 0, max_coeff_stmts: 1, q2: false, min_perm: 1, min_recomp: 0 },
+            Family { name: "npo-1perm-2alu-submuldiv-1conn", max_perm: 1, chained: false, min_alu: 2, max_alu: 2, kinds: vec![Sub, Mul, Div], wide_operands: false, fed_inputs: false, coeffs: false, bits: false, max_conn: 1, max_recomp: 0, max_coeff_stmts: 1, q2: false, min_perm: 1, min_recomp: 0 },
+            Family { name: "npo-2perm-1alu-submul-1conn", max_perm: 2, chained: true, min_alu: 1, max_alu: 1, kinds: vec![Sub, Mul], wide_operands: false, fed_inputs: false, coeffs: false, bits: false, max_conn: 1, max_recomp: 0, max_coeff_stmts: 1, q2: false, min_perm: 1, min_recomp: 0 },
+            Family { name: "npo-1perm-coeffs-1alu-submul-1conn", max_perm: 1, chained: false, min_alu: 1, max_alu: 1, kinds: vec![Sub, Mul], wide_operands: false, fed_inputs: false, coeffs: true, bits: false, max_conn: 1, max_recomp: 0, max_coeff_stmts: 1, q2: false, min_perm: 1, min_recomp: 0 },
+            Family { name: "npo-2recomp-0or1perm-le1alu-1conn", max_perm: 1, chained: false, min_alu: 0, max_alu: 1, kinds: vec![Sub, Mul], wide_operands: false, fed_inputs: false, coeffs: true, bits: false, max_conn: 1, max_recomp: 2, max_coeff_stmts: 2, q2: false, min_perm: 0, min_recomp: 1 },
+            Family { name: "npo-1perm-bits-1alu-0conn", max_perm: 1, chained: false, min_alu: 1, max_alu: 1, kinds: vec![Sub, Mul], wide_operands: false, fed_inputs: false, coeffs: false, bits: true, max_conn: 0, max_recomp: 0, max_coeff_stmts: 1, q2: false, min_perm: 1, min_recomp: 0 },
         ]
     } else {
         let sd = vec![Sub, Mul, Div];
         vec![
-            Family { name: "npo-1perm-1alu-2conn", max_perm: 1, chained: false, min_alu: 1, max_alu: 1, kinds: all.clone(), wide_operands: true, fed_inputs: true, coeffs: false, bits: false, max_conn: 2 },
-            Family { name: "npo-1perm-2alu-2conn", max_perm: 1, chained: false, min_alu: 2, max_alu: 2, kinds: bin.clone(), wide_operands: false, fed_inputs: true, coeffs: false, bits: false, max_conn: 2 },
-            Family { name: "npo-1perm-2alu-all-1conn", max_perm: 1, chained: false, min_alu: 2, max_alu: 2, kinds: all.clone(), wide_operands: true, fed_inputs: true, coeffs: false, bits: false, max_conn: 1 },
-            Family { name: "npo-1perm-3alu-1conn", max_perm: 1, chained: false, min_alu: 3, max_alu: 3, kinds: sd.clone(), wide_operands: false, fed_inputs: false, coeffs: false, bits: false, max_conn: 1 },
-            Family { name: "npo-2perm-1alu-2conn", max_perm: 2, chained: true, min_alu: 1, max_alu: 1, kinds: all.clone(), wide_operands: false, fed_inputs: true, coeffs: false, bits: false, max_conn: 2 },
-            Family { name: "npo-2perm-2alu-1conn", max_perm: 2, chained: true, min_alu: 2, max_alu: 2, kinds: bin.clone(), wide_operands: false, fed_inputs: false, coeffs: false, bits: false, max_conn: 1 },
-            Family { name: "npo-1perm-coeffs-1alu-2conn", max_perm: 1, chained: false, min_alu: 1, max_alu: 1, kinds: all, wide_operands: false, fed_inputs: false, coeffs: true, bits: false, max_conn: 2 },
-            Family { name: "npo-1perm-coeffs-2alu-1conn", max_perm: 1, chained: false, min_alu: 2, max_alu: 2, kinds: sd, wide_operands: false, fed_inputs: false, coeffs: true, bits: false, max_conn: 1 },
-            Family { name: "npo-1perm-bits-2alu-1conn", max_perm: 1, chained: false, min_alu: 1, max_alu: 2, kinds: vec![Sub, Mul], wide_operands: false, fed_inputs: false, coeffs: false, bits: true, max_conn: 1 },
-            Family { name: "npo-1perm-coeffs-bits-1alu-1conn", max_perm: 1, chained: false, min_alu: 1, max_alu: 1, kinds: vec![Sub, Mul], wide_operands: false, fed_inputs: false, coeffs: true, bits: true, max_conn: 1 },
+            Family { name: "npo-1perm-1alu-2conn", max_perm: 1, chained: false, min_alu: 1, max_alu: 1, kinds: all.clone(), wide_operands: true, fed_inputs: true, coeffs: false, bits: false, max_conn: 2, max_recomp: 0, max_coeff_stmts: 1, q2: false, min_perm: 1, min_recomp: 0 },
+            Family { name: "npo-1perm-2alu-2conn", max_perm: 1, chained: false, min_alu: 2, max_alu: 2, kinds: bin.clone(), wide_operands: false, fed_inputs: true, coeffs: false, bits: false, max_conn: 2, max_recomp: 0, max_coeff_stmts: 1, q2: false, min_perm: 1, min_recomp: 0 },
+            Family { name: "npo-1perm-2alu-all-1conn", max_perm: 1, chained: false, min_alu: 2, max_alu: 2, kinds: all.clone(), wide_operands: true, fed_inputs: true, coeffs: false, bits: false, max_conn: 1, max_recomp: 0, max_coeff_stmts: 1, q2: false, min_perm: 1, min_recomp: 0 },
+            Family { name: "npo-1perm-3alu-1conn", max_perm: 1, chained: false, min_alu: 3, max_alu: 3, kinds: sd.clone(), wide_operands: false, fed_inputs: false, coeffs: false, bits: false, max_conn: 1, max_recomp: 0, max_coeff_stmts: 1, q2: false, min_perm: 1, min_recomp: 0 },
+            Family { name: "npo-2perm-1alu-2conn", max_perm: 2, chained: true, min_alu: 1, max_alu: 1, kinds: all.clone(), wide_operands: false, fed_inputs: true, coeffs: false, bits: false, max_conn: 2, max_recomp: 0, max_coeff_stmts: 1, q2: false, min_perm: 1, min_recomp: 0 },
+            Family { name: "npo-2perm-2alu-1conn", max_perm: 2, chained: true, min_alu: 2, max_alu: 2, kinds: bin.clone(), wide_operands: false, fed_inputs: false, coeffs: false, bits: false, max_conn: 1, max_recomp: 0, max_coeff_stmts: 1, q2: false, min_perm: 1, min_recomp: 0 },
+            Family { name: "npo-1perm-coeffs-1alu-2conn", max_perm: 1, chained: false, min_alu: 1, max_alu: 1, kinds: all, wide_operands: false, fed_inputs: false, coeffs: true, bits: false, max_conn: 2, max_recomp: 0, max_coeff_stmts: 1, q2: false, min_perm: 1, min_recomp: 0 },
+            Family { name: "npo-1perm-coeffs-2alu-1conn", max_perm: 1, chained: false, min_alu: 2, max_alu: 2, kinds: sd, wide_operands: false, fed_inputs: false, coeffs: true, bits: false, max_conn: 1, max_recomp: 0, max_coeff_stmts: 1, q2: false, min_perm: 1, min_recomp: 0 },
+            Family { name: "npo-1perm-bits-2alu-1conn", max_perm: 1, chained: false, min_alu: 1, max_alu: 2, kinds: vec![Sub, Mul], wide_operands: false, fed_inputs: false, coeffs: false, bits: true, max_conn: 1, max_recomp: 0, max_coeff_stmts: 1, q2: false, min_perm: 1, min_recomp: 0 },
+            Family { name: "npo-2recomp-q2-0or1perm-le1alu-2conn", max_perm: 1, chained: false, min_alu: 0, max_alu: 1, kinds: vec![Add, Sub, Mul, Div], wide_operands: false, fed_inputs: false, coeffs: true, bits: false, max_conn: 2, max_recomp: 2, max_coeff_stmts: 2, q2: true, min_perm: 0, min_recomp: 1 },
+            Family { name: "npo-3coeffstmts-0or1perm-le1alu-1conn", max_perm: 1, chained: false, min_alu: 0, max_alu: 1, kinds: vec![Sub, Mul], wide_operands: false, fed_inputs: false, coeffs: true, bits: false, max_conn: 1, max_recomp: 2, max_coeff_stmts: 3, q2: false, min_perm: 0, min_recomp: 1 },
+            Family { name: "npo-2recomp-0or1perm-2alu-1conn", max_perm: 1, chained: false, min_alu: 2, max_alu: 2, kinds: vec![Sub, Mul], wide_operands: false, fed_inputs: false, coeffs: false, bits: false, max_conn: 1, max_recomp: 2, max_coeff_stmts: 2, q2: false, min_perm: 0, min_recomp: 2 },
+            Family { name: "npo-1perm-coeffs-bits-1alu-1conn", max_perm: 1, chained: false, min_alu: 1, max_alu: 1, kinds: vec![Sub, Mul], wide_operands: false, fed_inputs: false, coeffs: true, bits: true, max_conn: 1, max_recomp: 0, max_coeff_stmts: 1, q2: false, min_perm: 1, min_recomp: 0 },
         ]
     }
 }
@@ -205,6 +236,7 @@ struct GenState {
     alus: u8,
     coeffs: bool,
     bits: bool,
+    recomps: u8,
 }
 
 impl GenState {
@@ -228,6 +260,9 @@ impl GenState {
         if self.bits {
             v.push(Atom::B(0));
         }
+        for i in 0..self.recomps {
+            v.push(Atom::X(i));
+        }
         v
     }
 }
@@ -235,7 +270,7 @@ impl GenState {
 /// All statement sequences of the family (every dependency-respecting emission order).
 pub fn sequences(f: &Family, out: &mut Vec<Vec<Stmt>>) {
     fn rec(f: &Family, st: &GenState, out: &mut Vec<Vec<Stmt>>) {
-        if st.perms >= 1 && st.alus >= f.min_alu {
+        if st.perms >= f.min_perm && st.alus >= f.min_alu && st.recomps >= f.min_recomp {
             out.push(st.stmts.clone());
         }
         // perm
@@ -300,13 +335,34 @@ pub fn sequences(f: &Family, out: &mut Vec<Vec<Stmt>>) {
                 }
             }
         }
-        if f.coeffs && !st.coeffs {
+        let coeff_stmts = st.recomps + st.coeffs as u8;
+        if st.recomps < f.max_recomp && coeff_stmts < f.max_coeff_stmts {
+            let mut srcs = vec![CoeffSrc::Q];
+            if f.q2 {
+                srcs.push(CoeffSrc::Q2);
+            }
+            if st.coeffs {
+                srcs.push(CoeffSrc::C);
+            }
+            for src in srcs {
+                for ctl in [false, true] {
+                    let mut n = st.clone();
+                    n.stmts.push(Stmt::Recomp { src, ctl });
+                    n.recomps += 1;
+                    rec(f, &n, out);
+                }
+            }
+        }
+        if f.coeffs && !st.coeffs && coeff_stmts < f.max_coeff_stmts {
             let mut targets = vec![Atom::P0];
             if st.perms > 0 {
                 targets.push(Atom::O(0, 0));
             }
             if st.alus > 0 {
                 targets.push(Atom::R(st.alus - 1));
+            }
+            if st.recomps > 0 {
+                targets.push(Atom::X(st.recomps - 1));
             }
             for t in targets {
                 for ctl in [false, true] {
@@ -330,9 +386,13 @@ pub fn sequences(f: &Family, out: &mut Vec<Vec<Stmt>>) {
 /// Endpoints of `connect`: a public input, a constant, a hint output, a perm output, an ALU result.
 pub fn connect_sets(f: &Family, stmts: &[Stmt]) -> Vec<Vec<(Atom, Atom)>> {
     let mut e = vec![Atom::P0, Atom::P1, Atom::K, Atom::H];
-    let (mut np, mut na) = (0u8, 0u8);
+    let (mut np, mut na, mut nx) = (0u8, 0u8, 0u8);
     for s in stmts {
         match s {
+            Stmt::Recomp { .. } => {
+                e.push(Atom::X(nx));
+                nx += 1;
+            }
             Stmt::Perm { .. } | Stmt::PermChained { .. } => {
                 e.push(Atom::O(np, 0));
                 np += 1;
@@ -378,6 +438,8 @@ fn ext(c: [u64; 4]) -> Kb4 {
 pub fn k_val() -> Kb4 {
     ext([5, 6, 7, 8])
 }
+/// base-field values of the public coefficient sets Q and Q2 (both sets hold the same values)
+const Q_VALS: [u64; 4] = [2, 3, 4, 5];
 pub fn k2_val() -> Kb4 {
     ext([7, 0, 1, 2])
 }
@@ -406,7 +468,7 @@ fn eval(shape: &Shape, free: &Honest) -> Option<BTreeMap<Atom, Kb4>> {
     v.insert(Atom::P1, free.p1);
     v.insert(Atom::K, k_val());
     v.insert(Atom::H, free.h);
-    let (mut np, mut na) = (0u8, 0u8);
+    let (mut np, mut na, mut nx) = (0u8, 0u8, 0u8);
     let mut last_full: Option<[Kb4; 4]> = None;
     for s in &shape.stmts {
         match s {
@@ -455,6 +517,17 @@ fn eval(shape: &Shape, free: &Honest) -> Option<BTreeMap<Atom, Kb4>> {
                 for i in 0..N_BITS {
                     v.insert(Atom::B(i as u8), Kb4::from(Kb::from_u64((5u64 >> i) & 1)));
                 }
+            }
+            Stmt::Recomp { src, .. } => {
+                let x = match src {
+                    CoeffSrc::Q | CoeffSrc::Q2 => ext(Q_VALS),
+                    CoeffSrc::C => {
+                        let c: Vec<Kb> = (0..D).map(|i| <Kb4 as BasedVectorSpace<Kb>>::as_basis_coefficients_slice(&v[&Atom::C(i as u8)])[0]).collect();
+                        Kb4::from_basis_coefficients_slice(&c).unwrap()
+                    }
+                };
+                v.insert(Atom::X(nx), x);
+                nx += 1;
             }
         }
     }
@@ -515,7 +588,8 @@ pub struct Built {
     pub circuit: Circuit<Kb4>,
     /// atom -> expression
     pub atoms: BTreeMap<Atom, ExprId>,
-    pub n_public: usize,
+    /// the public input vector is [p0, p1] ++ extra (bits input, coefficient sets)
+    pub extra_publics: Vec<Kb4>,
 }
 
 pub fn build(shape: &Shape, h_val: Kb4) -> Result<Built, String> {
@@ -527,14 +601,22 @@ pub fn build(shape: &Shape, h_val: Kb4) -> Result<Built, String> {
     let p1 = b.alloc_public_input("p1");
     at.insert(Atom::P0, p0);
     at.insert(Atom::P1, p1);
-    let mut n_public = 2;
+    let mut extra_publics: Vec<Kb4> = vec![];
     let has_bits = shape.stmts.iter().any(|s| matches!(s, Stmt::Bits));
     let pb = if has_bits {
-        n_public += 1;
+        extra_publics.push(Kb4::from(Kb::from_u64(5)));
         Some(b.alloc_public_input("pb"))
     } else {
         None
     };
+    let mut qsets: BTreeMap<CoeffSrc, Vec<ExprId>> = BTreeMap::new();
+    for set in [CoeffSrc::Q, CoeffSrc::Q2] {
+        if shape.stmts.iter().any(|s| matches!(s, Stmt::Recomp { src, .. } if *src == set)) {
+            let q: Vec<ExprId> = (0..D).map(|_| b.alloc_public_input("q")).collect();
+            extra_publics.extend(Q_VALS.iter().map(|v| Kb4::from(Kb::from_u64(*v))));
+            qsets.insert(set, q);
+        }
+    }
     let k = b.alloc_const(k_val(), "k");
     let k2 = b.alloc_const(k2_val(), "k2");
     at.insert(Atom::K, k);
@@ -548,9 +630,18 @@ pub fn build(shape: &Shape, h_val: Kb4) -> Result<Built, String> {
         );
         at.insert(Atom::H, outs[0].ok_or("hint without output")?);
     }
-    let (mut np, mut na) = (0u8, 0u8);
+    let (mut np, mut na, mut nx) = (0u8, 0u8, 0u8);
     for s in &shape.stmts {
         match s {
+            Stmt::Recomp { src, ctl } => {
+                let coeffs: Vec<ExprId> = match src {
+                    CoeffSrc::C => (0..D).map(|i| at.get(&Atom::C(i as u8)).copied().ok_or("recompose of c0..c3 before coeffs")).collect::<Result<_, _>>()?,
+                    q => qsets[q].clone(),
+                };
+                let x = if *ctl { b.recompose_base_coeffs_to_ext_with_coeff_lookups::<Kb>(&coeffs) } else { b.recompose_base_coeffs_to_ext::<Kb>(&coeffs) }.map_err(|e| format!("recompose: {e:?}"))?;
+                at.insert(Atom::X(nx), x);
+                nx += 1;
+            }
             Stmt::Perm { in0 } => {
                 let (_, outs) = b
                     .add_poseidon2_perm(&Poseidon2PermCall {
@@ -619,7 +710,7 @@ pub fn build(shape: &Shape, h_val: Kb4) -> Result<Built, String> {
         b.connect(at[x], at[y]);
     }
     let circuit = b.build().map_err(|e| format!("build: {e:?}"))?;
-    Ok(Built { circuit, atoms: at, n_public })
+    Ok(Built { circuit, atoms: at, extra_publics })
 }
 
 // ---------------------------------------------------------------------------------------------
@@ -811,6 +902,7 @@ pub fn slot_sources(built: &Built) -> BTreeMap<u64, BTreeSet<char>> {
             Atom::R(_) => 'R',
             Atom::C(_) => 'c',
             Atom::B(_) => 'b',
+            Atom::X(_) => 'X',
         };
         if let Some(w) = built.circuit.expr_to_widx.get(e) {
             m.entry(w.0 as u64).or_default().insert(k);
@@ -865,9 +957,11 @@ pub fn audit(ps: &[Port], sources: &BTreeMap<u64, BTreeSet<char>>) -> Vec<Findin
             let no_creating_port = !v.iter().any(|p| matches!(p.role, "alu.a" | "alu.c" | "alu.out"));
             let key = if f == "creators>1" && hint_slot && one_row {
                 "npo:creators>1|hint_output_on_two_ports_of_one_alu_row".to_string()
-            } else if f == "creators=0" && hint_slot && no_creating_port && !src.chars().any(|c| matches!(c, 'U' | 'C' | 'O')) {
+            } else if f == "creators=0" && hint_slot && no_creating_port && !src.chars().any(|c| matches!(c, 'U' | 'C' | 'O' | 'X')) {
                 "npo:creators=0|hint_output_first_used_as_b_or_npo_input".to_string()
-            } else if f == "creators=0" && !src.chars().any(|c| matches!(c, 'U' | 'C')) && v.iter().filter(|p| p.role == "p2.out" && p.mult == -1).count() >= 2 && !v.iter().any(|p| p.role == "p2.out" && p.mult >= 0) {
+            } else if f == "creators=0" && !src.chars().any(|c| matches!(c, 'U' | 'C')) && ["p2.out", "rc.out", "rcc.out"].iter().any(|r| v.iter().filter(|p| p.role == *r && p.mult == -1).count() >= 2 && !v.iter().any(|p| p.role == *r && p.mult >= 0)) {
+                // (the two outputs must belong to ONE table: a slot packed by rows of two
+                // different tables is handled correctly by the unchanged tree)
                 // `dup_npo_outputs` is keyed by witness id, not by row / limb: when two exposed
                 // Poseidon2 outputs (two rows, or both limbs of one row) share one slot, the
                 // first (creating) occurrence is turned into a reader as well
@@ -952,9 +1046,7 @@ pub enum Honesty {
 /// Honest run -> real prover (p3 `check_lookups` on) -> real verifier.
 pub fn honest_prove_verify(built: &Built, free: &Honest) -> Honesty {
     let mut pubs = vec![free.p0, free.p1];
-    if built.n_public == 3 {
-        pubs.push(Kb4::from(Kb::from_u64(5)));
-    }
+    pubs.extend(built.extra_publics.iter().copied());
     let mut r = built.circuit.runner();
     if let Err(e) = r.set_public_inputs(&pubs) {
         return Honesty::RunRejected(format!("{e:?}"));
